@@ -65,8 +65,8 @@ def _mutations(db) -> Tuple[List[tuple], int]:
                     for s in ast.walk(t):
                         if isinstance(s, ast.Attribute) and isinstance(s.ctx, (ast.Store, ast.Del)) and s.attr in ("sym_table", "sym_index"):
                             on_self_elsewhere = isinstance(s.value, ast.Name) and s.value.id == "self" and not (mod.name == ST and q.startswith("TraceSymbolTable."))
-                            if on_self_elsewhere and isinstance(n, ast.Assign) and _container_expr(n.value):
-                                continue   # another class keeping an alias of the container under the same attribute name (reads/mutations through it are still tracked)
+                            if on_self_elsewhere and isinstance(n, (ast.Assign, ast.AnnAssign)):
+                                continue   # another class binding ITS OWN attribute of the same name (an alias of the container or a value handed in): not a store into the table; mutations through it are still tracked
                             out.append(where + (f"rebind .{s.attr}", ast.unparse(n)[:100]))
                         if isinstance(s, ast.Subscript) and isinstance(s.ctx, (ast.Store, ast.Del)) and denotes(s.value):
                             out.append(where + (f"item store into {denotes(s.value)}", ast.unparse(n)[:100]))
